@@ -372,7 +372,7 @@ pub fn check_c21(tier: Tier) -> Report {
             let case = json!({"property": "C21", "kind": "cur", "victim": vn, "interpreter_version": t, "older": old});
             evals += 1;
             // non-trivial: versions sharing major.minor.patch with the minimum, or adjacent in one component
-            let near = (g.0, g.1) == (m.0, m.1) || (g.0 == m.0 && g.1 + 1 == m.1);
+            let near = (g.0, g.1) == (m.0, m.1) || (g.0 == m.0 && g.1.checked_add(1) == Some(m.1));
             if near {
                 nontrivial += 1;
             }
@@ -394,7 +394,7 @@ pub fn check_c21(tier: Tier) -> Report {
             rep.violations.extend(to_violations(&case, c21_case(&case)));
         }
         // both at once on the boundary set
-        let boundary: Vec<&VParts> = grid.iter().filter(|g| (g.0, g.1) == (m.0, m.1) || (g.0 == m.0 && g.1 + 1 == m.1)).collect();
+        let boundary: Vec<&VParts> = grid.iter().filter(|g| (g.0, g.1) == (m.0, m.1) || (g.0 == m.0 && g.1.checked_add(1) == Some(m.1))).collect();
         for a in &boundary {
             for b in boundary.iter().step_by(3) {
                 let case = json!({"property": "C21", "kind": "cur", "victim": vn, "interpreter_version": vtext(a), "data_version": vtext(b), "older": older(a, &m)});
